@@ -468,3 +468,37 @@ func extractMacatShapes() {
 	emit("\n/-- macat: payload options and the send / receive / reply loops as read -/\n")
 	emit("def macatShapes : List (String × List String) := [\n  %s\n]\n", strings.Join(rows, ",\n  "))
 }
+
+// the close paths of the connection-level objects, statement by statement: who closes what
+func extractCloseShapes() {
+	rows := []string{}
+	for _, fn := range []struct{ pkg, recv, name string }{
+		{"internal/core", "dialer", "Close"}, {"internal/core", "listener", "Close"},
+		{"transport", "connHandshaker", "Start"}, {"transport", "connHandshaker", "Close"}, {"transport", "connHandshaker", "worker"}, {"transport", "connHandshaker", "Wait"},
+		{"transport", "conn", "Close"},
+		{"transport/tcp", "dialer", "Close"}, {"transport/tcp", "listener", "Close"},
+		{"transport/tlstcp", "dialer", "Close"}, {"transport/tlstcp", "listener", "Close"},
+		{"transport/ipc", "dialer", "Close"}, {"transport/ipc", "listener", "Close"},
+		{"transport/ws", "listener", "Close"}, {"transport/ws", "listener", "Accept"}, {"transport/ws", "listener", "ServeHTTP"},
+	} {
+		p := loadPkg(fn.pkg)
+		fd := p.fn(fn.recv, fn.name)
+		if fd == nil || fd.Body == nil {
+			unrec(fn.pkg+":"+fn.recv+"."+fn.name, "function not found")
+			continue
+		}
+		rows = append(rows, fmt.Sprintf("(%s, %s)", leanStr(fn.pkg+":"+fn.recv+"."+fn.name), leanStrList(shapeLines(fd.Body))))
+	}
+	// the head of the ws handler: the test that decides whether an upgraded connection is queued
+	if fd := loadPkg("transport/ws").fn("listener", "handler"); fd != nil && fd.Body != nil {
+		l := shapeLines(fd.Body)
+		if len(l) > 5 {
+			l = l[:5]
+		}
+		rows = append(rows, fmt.Sprintf("(%s, %s)", leanStr("transport/ws:listener.handler (head)"), leanStrList(l)))
+	} else {
+		unrec("transport/ws:listener.handler", "function not found")
+	}
+	emit("\n/-- close paths of dialers, listeners, the connection handshaker and the ws accept queue, as read -/\n")
+	emit("def closeShapes : List (String × List String) := [\n  %s\n]\n", strings.Join(rows, ",\n  "))
+}
